@@ -438,6 +438,20 @@ class Conc:
         if name.startswith("llvm.fabs."):
             env[i.res] = abs(self.val(env, args[0]))
             return
+        if name in ("llround", "lround", "llroundf", "lroundf"):
+            x = self.val(env, args[0])
+            w = i.ty.bits
+            if x != x or math.isinf(x):
+                env[i.res] = -(1 << (w - 1))        # unspecified by the standard; glibc returns the minimum
+                return
+            from fractions import Fraction
+            f = Fraction(x)
+            n = (abs(f) + Fraction(1, 2)).__floor__()
+            n = n if f >= 0 else -n
+            if not (-(1 << (w - 1)) <= n < (1 << (w - 1))):
+                n = -(1 << (w - 1))
+            env[i.res] = n
+            return
         if name in _LIBM:
             xs = [self.val(env, a) for a in args]
             try:
